@@ -91,7 +91,7 @@ pub fn run(ctx: &Ctx, replay: Option<&J>) -> CheckResult {
     let rule = "for every supported message number (table scanned from /repo) and sampled unsupported numbers: CRC-valid frames from \
         {golden vectors, the crate's own generator (incl. its capacity/invalid branches), a structure-aware synthesiser (MSM valid and >64 mask cells, \
         1059/1065 lists up to and beyond capacity, 1029 valid/invalid UTF-8, count fields at 0/mid/cap/cap+1/max, density payloads of every length class), \
-        havoc mutations of all of these}; plus raw multi-frame/garbage byte streams through MsgFrameIter. oracle (inside catch_unwind): no panic, outcome in \
+        havoc mutations of all of these}; plus raw multi-frame/garbage byte streams through MsgFrameIter and four stress streams (1 MiB of 0xD3, 200-400 k false preambles) scanned in a child process (a process abort is a violation). oracle (inside catch_unwind): no panic, outcome in \
         {typed variant of that number, Corrupt, Empty, MsgNotSupported}, m==m, every float leaf finite, iterator terminates. run in both build profiles \
         (optimised; optimised+overflow-checks). non-trivial = typed decode, or CRC-valid frame of a supported number with a hostile feature; distinct = hash of frame"
         .to_string();
@@ -103,8 +103,18 @@ pub fn run(ctx: &Ctx, replay: Option<&J>) -> CheckResult {
         let mut ev = Evidence::new();
         ev.eval();
         let mut vs = Vec::new();
-        let bytes = unhex(c["bytes"].as_str().unwrap_or("")).unwrap_or_default();
-        let r = if c["kind"] == "stream" { oracle_stream(&bytes).map(|_| "stream") } else { oracle_frame(&bytes) };
+        let mut bytes = unhex(c["bytes"].as_str().unwrap_or("")).unwrap_or_default();
+        if c["kind"] == "stress" {
+            let unit = unhex(&c["pattern"].as_str().unwrap_or("d3").replace(' ', "")).unwrap_or_else(|| vec![0xD3]);
+            let n = c["count"].as_u64().unwrap_or(1) as usize;
+            bytes = Vec::with_capacity(unit.len() * n + 64);
+            for _ in 0..n {
+                bytes.extend_from_slice(&unit);
+            }
+            // a real frame at the end so that the scan has something to find
+            bytes.extend(crate::frame::frame(&[0x3E, 0xD0, 0x00, 0x01]));
+        }
+        let r = if c["kind"] == "stream" || c["kind"] == "stress" { oracle_stream(&bytes).map(|_| "stream") } else { oracle_frame(&bytes) };
         if let Err((sig, msg)) = r {
             vs.push(Violation { property: "C02".into(), signature: sig, message: msg, case: c.clone() });
         }
@@ -237,6 +247,32 @@ pub fn run(ctx: &Ctx, replay: Option<&J>) -> CheckResult {
     for x in svs {
         if !vs.iter().any(|y| y.signature == x.signature) {
             vs.push(x);
+        }
+    }
+    // stress streams that a defective scanner might not survive at all (deep recursion, quadratic blow-up): each runs in a
+    // child process so that an abort / stack overflow is observed as a violation instead of killing the check
+    if std::env::var("VERIF_CHILD").is_err() {
+        let stress: Vec<(&str, J)> = vec![
+            ("d3-run-1MiB", json!({"kind":"stress","pattern":"d3","count":1_048_576})),
+            ("false-preambles-6B-x400k", json!({"kind":"stress","pattern":"d3 00 00 00 00 00","count":400_000})),
+            ("false-preambles-7B-x300k", json!({"kind":"stress","pattern":"d3 00 01 55 00 00 00","count":300_000})),
+            ("d3-then-frames", json!({"kind":"stress","pattern":"d3 d3 00","count":200_000})),
+        ];
+        for (tag, case) in stress {
+            ev.evaluations += 1;
+            match run_case_in_child(ctx, &case, tag) {
+                ChildOutcome::Ok => {
+                    ev.class("stress-stream-in-child-process/ok");
+                    ev.nontrivial_hash(hash_str(tag));
+                }
+                ChildOutcome::Violation(m) => vs.push(Violation { property: "C02".into(), signature: format!("c02:stress:{}", tag), message: m, case }),
+                ChildOutcome::Died(m) => vs.push(Violation {
+                    property: "C02".into(),
+                    signature: "c02:process-died-while-scanning".into(),
+                    message: format!("scanning the stress stream '{}' killed the process: {}", tag, m),
+                    case,
+                }),
+            }
         }
     }
     // every payload length 0..=1023 for a few numbers (length coverage)
